@@ -144,8 +144,8 @@ def lean_file(t):
     for v, s in t['repr_token'].items():
         L.append('  | .%s => %s' % (INTS[v], lean_str(s)))
     L += ['',
-          'def okTrait (p : String × Trait) : Bool := match Trait.fromPath zcfg ⟨false, [⟨p.1, false⟩]⟩ with | .ok t => decide (t = p.2) | .error _ => false',
-          'def okGroup (p : String × SkipGroup) : Bool := match SkipGroup.fromPath zcfg ⟨false, [⟨p.1, false⟩]⟩ with | .ok g => decide (g = p.2) | .error _ => false',
+          'def okTrait (p : String × Trait) : Bool := match Trait.fromPath zcfg ⟨false, [⟨p.1, false⟩], none⟩ with | .ok t => decide (t = p.2) | .error _ => false',
+          'def okGroup (p : String × SkipGroup) : Bool := match SkipGroup.fromPath zcfg ⟨false, [⟨p.1, false⟩], none⟩ with | .ok g => decide (g = p.2) | .error _ => false',
           '',
           '/-- `SkipGroup::traits` of the source = the model\'s (and hence, by `Skip.traitSkipped_eq_covers`, the documented table). -/',
           'theorem groupTraits_eq : (allGroups.all fun g => decide (groupTraits g = g.traits)) = true := by decide +kernel',
